@@ -527,7 +527,7 @@ class Expression(np.ndarray):
         """
         Return a list of all ScalarAtoms appearing in this Expression.
         """
-        return list(set.union(*[set(se.scalar_atoms()) for se in self.flat]))
+        return list(set(a for se in self.flat for a in se.atoms_to_coeffs))
 
     def scalar_variables(self):
         """
@@ -694,6 +694,8 @@ class Expression(np.ndarray):
             return False
         A1, x1, B1 = expr1.factor()
         A2, x2, B2 = expr2.factor()
+        if len(x1) != len(x2):
+            return False
         for i in range(len(x1)):
             if not isinstance(x2[i], type(x1[i])):
                 return False
